@@ -57,16 +57,16 @@ const (
 )
 
 type world struct {
-	c      *sim.Ctx
-	net    *networks.Network
-	gen    *chaingen.Gen
-	chain  []*chaingen.Block
-	lay    layout
-	floor  uint64 // layoutPruned: oldest retained block
-	pre    int    // layoutPartTx: number of blocks already converted (multiple of batchSize)
-	meta   metaVariant
-	base   *memory.Database // pristine previous-layout image
-	baseMD *migration.SchemaMetadata
+	c                       *sim.Ctx
+	net                     *networks.Network
+	gen                     *chaingen.Gen
+	chain                   []*chaingen.Block
+	lay                     layout
+	floor                   uint64 // layoutPruned: oldest retained block
+	pre                     int    // layoutPartTx: number of blocks already converted (multiple of batchSize)
+	meta                    metaVariant
+	base                    *memory.Database // pristine previous-layout image
+	baseMD                  *migration.SchemaMetadata
 	optedAux, optedNewState bool // flags recorded in the base's last target
 	leadEmpty, trailEmpty   int
 }
